@@ -73,9 +73,37 @@ Row: 'row' cells+=INT[eolterm] ('|' more+=STRING[eolterm])?;
 Opts: 'opts' (a?='alpha' b?='beta' ('n' c=INT)?)# ';';
 Comment: /\/\*(.|\n)*?\*\//;
 """,
+    # one RREL scope provider *registered as a string* serves attributes whose match rules
+    # have different `split` parameters (the provider object lives in the metamodel and is
+    # shared by all loads): models written in one notation each
+    "pkg": r"""
+Model: packages*=Package uses*=Use;
+Package: 'package' name=ID '{' items*=Item packages*=Package '}';
+Item: 'item' name=ID ('=' v=INT)? ';';
+Use: DotUse | PathUse | ColUse;
+DotUse: 'use' ref=[Item|DOTTED] ('or' alt=[Package|DOTTED])? ';';
+PathUse: 'open' ref=[Item|PATH] ';';
+ColUse: 'take' pk=[Package|COLON] ';';
+DOTTED: ID ('.' ID)*;
+PATH[split='/']: ID ('/' ID)*;
+COLON[split='::']: ID ('::' ID)*;
+Comment: /\/\/.*$/;
+""",
+    # an ImportURI provider configured with a search path (state of the provider object);
+    # the model files live in several directories and import files by bare name
+    "dirs": r"""
+Model: imports*=Import things*=Thing uses*=Use;
+Import: 'import' importURI=STRING ';';
+Thing: 'thing' name=ID ('=' v=INT)? ';';
+Use: 'use' ref=[Thing] ';';
+Comment: /#.*$/;
+""",
 }
-EXT = {"ent": ".ent", "imp": ".imp", "expr": ".expr"}
+EXT = {"ent": ".ent", "imp": ".imp", "expr": ".expr", "pkg": ".pkg", "dirs": ".dirs"}
 OPTIONS = ["plain", "memo", "classes", "procs", "grepo", "icase"]
+# options per grammar (the two grammars with stateful providers get the options that matter for them)
+GOPTIONS = {"ent": OPTIONS, "imp": OPTIONS, "expr": OPTIONS,
+            "pkg": ["plain", "memo", "classes", "procs"], "dirs": ["plain", "memo", "classes", "grepo"]}
 
 # inputs: text plus an abstract description.  History.tla is told `defs` (names
 # the text defines, i.e. what a parser's _instances index holds after the load)
@@ -84,6 +112,7 @@ OPTIONS = ["plain", "memo", "classes", "procs", "grepo", "icase"]
 # be (syntactically valid, contains the value the raising processor reacts to,
 # failure forced by a nested / imported load); the outcome class itself is never
 # taken from here but from the Fresh table.
+_PKGS = "package P { item a; item b = 2; package Q { item a = 7; } }\npackage R { item c; }\n"
 INPUTS = {
     "ent": {
         "valid": dict(text="""model m1 // first
@@ -173,7 +202,42 @@ tup 13, 13 x;
 print boom;
 """, syn=True, defs=["a", "boom"], refs=["a", "boom"], trig=True, pre="none"),
     },
+    "pkg": {
+        "valid": dict(text=_PKGS + "use P.b; use P.Q.a or P.Q; // dotted names only\n",
+                      syn=True, defs=[], refs=[], trig=False, pre="none"),
+        "valid2": dict(text=_PKGS + "open P/b;\nopen P/Q/a;\n", syn=True, defs=[], refs=[], trig=False, pre="none"),
+        "colon": dict(text=_PKGS + "take P::Q; take R;\n", syn=True, defs=[], refs=[], trig=False, pre="none"),
+        "mixed": dict(text=_PKGS + "take P::Q; open P/Q/a; use P.a or R;\n", syn=True, defs=[], refs=[], trig=False,
+                      pre="none"),
+        "syntax": dict(text=_PKGS + "use P.b\nopen ;\n", syn=False, defs=[], refs=[], trig=False, pre="none"),
+        "unknown": dict(text=_PKGS + "open P/b; open P/Q/b;\n", syn=True, defs=[], refs=[], trig=False, pre="none"),
+        "boom": dict(text=_PKGS + "package S { item boom = 1; }\nuse S.boom;\n", syn=True, defs=[], refs=[], trig=True,
+                     pre="none"),
+    },
+    "dirs": {
+        # a/ has its own common.dirs (thing x); b/ and c/ have none: only shared/common.dirs (thing y)
+        # is reachable through the search path; onlya.dirs exists in a/ only
+        "valid": dict(dir="a", text='import "common.dirs"; # found next to the file\nthing m = 3; use x; use m;\n',
+                      syn=True, defs=[], refs=[], trig=False, pre="none"),
+        "validb": dict(dir="b", text='import "common.dirs"; # found on the search path\nthing n; use y; use n;\n',
+                       syn=True, defs=[], refs=[], trig=False, pre="none"),
+        "missing": dict(dir="c", text='import "onlya.dirs";\nuse z;\n', syn=True, defs=[], refs=[], trig=False,
+                        pre="other"),
+        "noimp": dict(dir="c", text="thing p = 1; thing q; use q; use p;\n", syn=True, defs=[], refs=[], trig=False,
+                      pre="none"),
+        "syntax": dict(dir="a", text='import "common.dirs";\nthing m use x;\n', syn=False, defs=[], refs=[],
+                       trig=False, pre="none"),
+        "unknown": dict(dir="b", text='import "common.dirs";\nthing q; use q; use x;\n', syn=True, defs=[], refs=[],
+                        trig=False, pre="none"),
+        "boom": dict(dir="c", text='import "common.dirs";\nthing boom; use y;\n', syn=True, defs=[], refs=[],
+                     trig=True, pre="none"),
+        "impdep": dict(dir="b", dep=True, text='import "dep.dirs";\nimport "common.dirs";\nuse d; use y;\n',
+                       syn=True, defs=[], refs=[], trig=False, pre="none"),
+    },
 }
+INPUTS["imp"]["impdep"] = dict(dep=True, text='import "dep.imp";\nimport "lib.imp";\nthing u uses dep, other\n',
+                               syn=True, defs=["u", "dep", "base", "base.inner", "other"], refs=["dep", "other"],
+                               trig=False, pre="none")
 
 # library files next to the model files (loaded by nested / imported loads)
 LIBS = {
@@ -182,17 +246,45 @@ LIBS = {
     "imp": {"lib.imp": "1: thing base { thing inner }\nthing other [0 and 0] uses base.inner\n",
             "bad.imp": "thing base {\n"},
     "expr": {},
+    "pkg": {},
+    "dirs": {"a/common.dirs": "thing x = 1;\n", "a/onlya.dirs": "thing z;\n",
+             "shared/common.dirs": "thing y = 2;\n"},
 }
+# the one *mutable library file* of a grammar directory (imported by the inputs marked dep=True):
+# relative path and its two contents.  `good` is the initial content.
+DEP = {"imp": ("dep.imp", {"good": "thing dep uses dep\n", "bad": "thing dep {\n"}),
+       "dirs": ("shared/dep.dirs", {"good": "thing d = 4;\n", "bad": "thing d = ;\n"})}
+WORLDS = ["good", "bad"]
 
 # library files a scope provider loads as *nested main models* (same metamodel)
-NESTED = {"ent": {"valid2": ["good.ent"], "nestbad": ["bad.ent"]}, "imp": {}, "expr": {}}
+NESTED = {"ent": {"valid2": ["good.ent"], "nestbad": ["bad.ent"]}}
 # imported models (is_main_model=False) parsed before reference resolution starts
-NIMP = {"ent": {}, "imp": {"valid": 1, "unknown": 1, "boom": 1, "impbad": 1}, "expr": {}}
-# what WriteFile may put into the mutable file `scratch<ext>` (initially `valid`)
-WINPUTS = {g: ["valid", "unknown"] for g in GRAMMARS}
+NIMP = {"imp": {"valid": 1, "unknown": 1, "boom": 1, "impbad": 1, "impdep": 2},
+        "dirs": {"valid": 1, "validb": 1, "unknown": 1, "boom": 1, "syntax": 0, "impdep": 2}}
+# what WriteFile may put into the mutable file `scratch<ext>` (initially the first one); the scratch
+# file lives in the directory of these inputs
+WINPUTS = {g: (["validb", "unknown"] if g == "dirs" else ["valid", "unknown"]) for g in GRAMMARS}
 SCRATCH = "scratch"
 
-CFGS = [f"{g}.{o}" for g in GRAMMARS for o in OPTIONS]
+CFGS = [f"{g}.{o}" for g in GRAMMARS for o in GOPTIONS[g]]
+
+
+def input_dir(g, inp):
+    return INPUTS[g][inp].get("dir", "")
+
+
+def scratch_dir(g):
+    return input_dir(g, WINPUTS[g][0])
+
+
+def input_path(workdir, g, inp):
+    """Path of the file named `inp` (an input or the scratch file) of grammar g."""
+    d = scratch_dir(g) if inp == SCRATCH else input_dir(g, inp)
+    return os.path.join(workdir, g, d, inp + EXT[g])
+
+
+def uses_dep(g, inp):
+    return bool(INPUTS[g][inp].get("dep"))
 
 
 def cfg_flags(cfg):
@@ -201,28 +293,32 @@ def cfg_flags(cfg):
                 grepo=(o == "grepo"), icase=(o == "icase"), inst=(g == "ent"), debug=False)
 
 
-def file_name(cfg, inp):
-    g = cfg.split(".")[0] if "." in cfg else cfg
-    return inp + EXT[g]
+def _put(path, text):
+    os.makedirs(os.path.dirname(path), exist_ok=True)
+    with open(path, "w") as f:
+        f.write(text)
 
 
-def write_pool(workdir):
-    """One directory per grammar: the input files and the libraries."""
+def write_pool(workdir, world="good"):
+    """One directory tree per grammar: the input files, the libraries, the scratch file and
+    the mutable library file with the content of `world`."""
     for g in GRAMMARS:
-        d = os.path.join(workdir, g)
-        os.makedirs(d, exist_ok=True)
+        os.makedirs(os.path.join(workdir, g), exist_ok=True)
         for name, rec in INPUTS[g].items():
-            with open(os.path.join(d, name + EXT[g]), "w") as f:
-                f.write(rec["text"])
+            _put(input_path(workdir, g, name), rec["text"])
         for name, text in LIBS[g].items():
-            with open(os.path.join(d, name), "w") as f:
-                f.write(text)
-        write_scratch(workdir, g, "valid")
+            _put(os.path.join(workdir, g, name), text)
+        write_scratch(workdir, g, WINPUTS[g][0])
+        if g in DEP:
+            write_dep(workdir, g, world)
 
 
 def write_scratch(workdir, g, inp):
-    with open(os.path.join(workdir, g, SCRATCH + EXT[g]), "w") as f:
-        f.write(INPUTS[g][inp]["text"])
+    _put(input_path(workdir, g, SCRATCH), INPUTS[g][inp]["text"])
+
+
+def write_dep(workdir, g, world):
+    _put(os.path.join(workdir, g, DEP[g][0]), DEP[g][1][world])
 
 
 # --------------------------------------------------------------------------- building a metamodel
@@ -253,6 +349,10 @@ def _user_classes(grammar, counters):
         return [mk("Model", ["name", "items"]), mk("Item", ["name", "val", "num", "flt", "code", "tag", "refs", "one"])]
     if grammar == "imp":
         return [mk("Thing", ["name", "tags", "uses", "things"])]
+    if grammar == "pkg":
+        return [mk("Package", ["name", "items", "packages"]), mk("Item", ["name", "v"])]
+    if grammar == "dirs":
+        return [mk("Thing", ["name", "v"]), mk("Use", ["ref"])]
     return [mk("Let", ["name", "e"]), mk("Sum", ["l", "ops", "rs"])]
 
 
@@ -266,8 +366,10 @@ def _processors(grammar):
 
     if grammar == "ent":
         return {"Item": named_boom, "STRING": lambda s: s[1:-1].upper()}
-    if grammar == "imp":
+    if grammar in ("imp", "dirs"):
         return {"Thing": named_boom}
+    if grammar == "pkg":
+        return {"Item": named_boom}
 
     def num(o):
         if o.v == 13:
@@ -305,7 +407,7 @@ def _ent_provider(live_ref):
 
 def new_mm(cfg, workdir):
     from textx import metamodel_from_str
-    from textx.scoping.providers import FQNImportURI
+    from textx.scoping.providers import FQNImportURI, PlainNameImportURI
 
     fl = cfg_flags(cfg)
     g = fl["grammar"]
@@ -328,18 +430,28 @@ def new_mm(cfg, workdir):
         mm.register_scope_providers({"*.*": _ent_provider([live])})
     elif g == "imp":
         mm.register_scope_providers({"*.*": FQNImportURI()})
+    elif g == "pkg":
+        # RREL providers given as strings: one provider object per pattern, shared by all loads
+        mm.register_scope_providers({"*.ref": "packages*.items", "*.pk": "packages*", "*.alt": "packages*"})
+    elif g == "dirs":
+        mm.register_scope_providers({"*.*": PlainNameImportURI(search_path=[os.path.join(workdir, "dirs", "shared")])})
     if fl["procs"]:
         mm.register_obj_processors(_processors(g))
     return live
 
 
 # --------------------------------------------------------------------------- projection of results
+_ROOT = [None]      # directory of the grammar whose load is being projected (set by do_load)
+
+
 def _norm_file(fn, self_file):
     if fn is None:
         return "<none>"
     fn = os.path.abspath(fn)
     if self_file and fn == os.path.abspath(self_file):
         return "<self>"
+    if _ROOT[0] and fn.startswith(_ROOT[0] + os.sep):
+        return "file:" + os.path.relpath(fn, _ROOT[0])
     return "file:" + os.path.basename(fn)
 
 
@@ -470,7 +582,8 @@ def do_load(live, mode, inp):
     """mode 'str': inp names an input text; mode 'file': inp names a file.
     Returns (dump, model-or-None)."""
     g = live.flags["grammar"]
-    path = os.path.join(live.workdir, g, inp + EXT[g])
+    path = input_path(live.workdir, g, inp)
+    _ROOT[0] = os.path.abspath(os.path.join(live.workdir, g))
     try:
         if mode == "str":
             model = live.mm.model_from_str(INPUTS[g][inp]["text"])
@@ -497,7 +610,7 @@ def _rule_cache_entries(root, seen):
     return n
 
 
-def project_shared(lives, slots, scratch):
+def project_shared(lives, slots, scratch, dep):
     """The state that outlives a load, projected onto History.tla's variables.
 
     gp      {debug flag: none | plain | memo}      textx.lang.textX_parsers
@@ -548,17 +661,23 @@ def project_shared(lives, slots, scratch):
         repo = []
         r = getattr(live.mm, "_tx_model_repository", None)
         if r is not None:
-            repo = sorted(_strip_ext(os.path.basename(k), live.flags["grammar"])
+            repo = sorted(_repo_name(k, live.workdir, live.flags["grammar"])
                           for k in r.all_models.filename_to_model)
         mms.append(dict(cfg=live.cfg, dirty=sorted(set(dirty)), instr=instr, repo=repo))
-    return dict(gp=gp, cache=cache, mms=mms, scratch=dict(scratch))
+    d = dict(dep)
+    d["_"] = "good"          # never an empty object (TLC's JSON reader)
+    return dict(gp=gp, cache=cache, mms=mms, scratch=dict(scratch), dep=d)
 
 
-def _strip_ext(base, g):
-    """Input files are named <input><ext>; the module names them by the input.
-    Library files keep their full name."""
-    stem = base[:-len(EXT[g])] if base.endswith(EXT[g]) else base
-    return stem if (stem in INPUTS[g] or stem == SCRATCH) else base
+def _repo_name(path, workdir, g):
+    """Name of a cached file as the module knows it: the input (or `scratch`) for a file
+    of the pool, otherwise the path relative to the grammar directory (libraries)."""
+    path = os.path.abspath(path)
+    for i in list(INPUTS[g]) + [SCRATCH]:
+        if path == os.path.abspath(input_path(workdir, g, i)):
+            return i
+    root = os.path.abspath(os.path.join(workdir, g))
+    return os.path.relpath(path, root) if path.startswith(root + os.sep) else os.path.basename(path)
 
 
 # --------------------------------------------------------------------------- executing a history
@@ -572,7 +691,8 @@ class Executor:
         self.lives = {}
         self.returned = []      # (op index, model) kept alive so identity is meaningful
         self.n = 0
-        self.scratch = {g: "valid" for g in self.grammars}
+        self.scratch = {g: WINPUTS[g][0] for g in self.grammars}
+        self.dep = {g: "good" for g in self.grammars if g in DEP}
 
     def reset_process_state(self):
         """Back to the initial state of the module (used between histories)."""
@@ -585,9 +705,12 @@ class Executor:
         self.n = 0
         lang.textX_parsers.clear()
         for g in self.grammars:
-            if self.scratch[g] != "valid":
-                write_scratch(self.workdir, g, "valid")
-            self.scratch[g] = "valid"
+            if self.scratch[g] != WINPUTS[g][0]:
+                write_scratch(self.workdir, g, WINPUTS[g][0])
+            self.scratch[g] = WINPUTS[g][0]
+            if self.dep.get(g, "good") != "good":
+                write_dep(self.workdir, g, "good")
+                self.dep[g] = "good"
         gc.collect()
 
     def apply(self, op):
@@ -612,6 +735,10 @@ class Executor:
             write_scratch(self.workdir, op["arg"], op["inp"])
             self.scratch[op["arg"]] = op["inp"]
             return dict(kind="none", dig="-", ident=0, dump={})
+        if name == "WriteDep":
+            write_dep(self.workdir, op["arg"], op["inp"])
+            self.dep[op["arg"]] = op["inp"]
+            return dict(kind="none", dig="-", ident=0, dump={})
         live = self.lives[op["slot"]]
         dump, model = do_load(live, "str" if name == "LoadStr" else "file", op["arg"])
         ident = 0
@@ -625,24 +752,26 @@ class Executor:
         return dict(kind=kind_of(dump), dig=digest(dump), ident=ident, dump=dump)
 
     def state(self):
-        return project_shared(self.lives, self.slots, self.scratch)
+        return project_shared(self.lives, self.slots, self.scratch, self.dep)
 
 
 # --------------------------------------------------------------------------- Fresh: one run in a new interpreter
-def fresh_one(cfg, inp, mode, workdir):
-    """NewMM(cfg) then one load, in this (brand-new) interpreter.  `workdir` must be
-    private to this run: a failing load may leave files cached nowhere but the
-    metamodel, and the scratch file is not touched."""
+def fresh_one(cfg, inp, mode, workdir, world):
+    """NewMM(cfg) then one load, in this (brand-new) interpreter.  `workdir` holds the pool
+    with the mutable library file in state `world` (one directory per world, prepared by the
+    caller; nothing is written here)."""
     import textx
 
-    ex = Executor(workdir, slots=1, grammars=[cfg.split(".")[0]])
+    g = cfg.split(".")[0]
+    ex = Executor(workdir, slots=1, grammars=[g])
+    if g in DEP:
+        ex.dep[g] = world
     r0 = ex.apply(dict(name="NewMM", slot=1, arg=cfg))
-    out = dict(cfg=cfg, inp=inp, mode=mode, mm=dict(kind=r0["kind"], dig=r0["dig"]))
+    out = dict(cfg=cfg, inp=inp, mode=mode, world=world, mm=dict(kind=r0["kind"], dig=r0["dig"]))
     r = ex.apply(dict(name="LoadStr" if mode == "str" else "LoadFile", slot=1, arg=inp))
     st = ex.state()
-    own = inp
     out["load"] = dict(kind=r["kind"], dig=r["dig"], dump=r["dump"],
-                       libs=[f for f in st["mms"][0]["repo"] if not (mode == "file" and f == own)],
+                       libs=[f for f in st["mms"][0]["repo"] if not (mode == "file" and f == inp)],
                        state=st)
     out["textx"] = os.path.realpath(os.path.dirname(os.path.dirname(os.path.abspath(textx.__file__))))
     return out
@@ -650,8 +779,8 @@ def fresh_one(cfg, inp, mode, workdir):
 
 def main(argv):
     if argv[:1] == ["fresh"]:
-        cfg, inp, mode, workdir = argv[1:5]
-        print("FRESH|" + json.dumps(fresh_one(cfg, inp, mode, workdir), sort_keys=True))
+        cfg, inp, mode, workdir, world = argv[1:6]
+        print("FRESH|" + json.dumps(fresh_one(cfg, inp, mode, workdir, world), sort_keys=True))
         return 0
     return 2
 
